@@ -196,6 +196,11 @@ class Prop(common.PropertyCheck):
                 toks.append([first] + body)
             yield {'k': 'dict', 'd': d, 'toks': toks, 'tail': [], 'supp': rng.random() < 0.4, 'lead': rng.random() < 0.5}
 
+        # keywords that differ in letter case only are different keywords ('Sample' / 'SAMPLE', 'a' / 'A'): both come back, each with its own value
+        for i, (k1, k2) in enumerate([('Sample', 'SAMPLE'), ('a', 'A'), ('$p1n', '$P1N'), ('Gate', 'gate'), ('xY', 'Xy')]):
+            for d in (47, 124, 33):
+                toks = [[ord(c) for c in k1], [ord(c) for c in 'tube 1'], [ord(c) for c in k2], [ord(c) for c in 'tube 2'], [ord('K')], [ord('v')]]
+                yield {'k': 'dict', 'd': d, 'toks': toks, 'tail': [], 'supp': i % 2 == 1, 'lead': True}
         # two files of one template: identical primary TEXT (fixed-width offsets), different supplemental keywords, loaded one after the other
         for i in range(self.budget(8, 40)):
             d = [47, 124, 33, 12][i % 4]
